@@ -10,6 +10,7 @@ import (
 	"time"
 	"verifharness/gen"
 
+	"github.com/basecomplextech/baselibrary/async"
 	"github.com/basecomplextech/baselibrary/status"
 	"github.com/basecomplextech/spec/mpx"
 	"pgregory.net/rapid"
@@ -64,13 +65,13 @@ func c06Handler(er *errs) mpx.Handler {
 		vc := v.(*victim)
 		switch vc.Kind {
 		case 0, 1: // server keeps sending until the channel ends
-			for i := 0; ; i++ {
+			for i, t0 := 0, time.Now(); ; i++ {
 				yield(vc.YieldN, i)
 				if st := ch.Send(ctx, netfx.Make(netfx.Header{Conn: roleVictim, Chan: vc.ID, Dir: 1, Seq: uint32(i)}, vc.Size)); !st.OK() {
 					vc.inflight.Store(true)
 					return status.OK
 				}
-				if i > 100000 {
+				if i%1024 == 1023 && time.Since(t0) > boundArrive() {
 					er.addf("server: victim %d never ended", vc.ID)
 					return status.OK
 				}
@@ -119,7 +120,7 @@ func runVictimClient(conn mpx.Conn, vc *victim, er *errs) {
 		}
 		return // Free by defer while the server is still sending
 	default:
-		for i := 1; ; i++ {
+		for i, t0 := 1, time.Now(); ; i++ {
 			yield(vc.YieldN, i)
 			if vc.Kind == 5 && i >= vc.After {
 				return // both sides end at about the same message count
@@ -128,7 +129,7 @@ func runVictimClient(conn mpx.Conn, vc *victim, er *errs) {
 				vc.inflight.Store(true)
 				return
 			}
-			if i > 100000 {
+			if i%1024 == 1023 && time.Since(t0) > boundArrive() {
 				er.addf("client: victim %d never ended", vc.ID)
 				return
 			}
@@ -140,6 +141,7 @@ func TestC06_Isolation(t *testing.T) {
 	ev.Rule(c06, "rapid: one connection with 2..4 witness channels running complete C03 integrity scripts for the whole case and 8..120 victim channels, each ended by a drawn mode {client Free while server sends, client SendAndClose while server sends, handler returns OK / error status / panics while client sends, both end at once} at a drawn point with traffic in flight; oracle: connection stays open and keeps opening channels (ping echo at the end), witnesses complete in order and uncorrupted, no library panic and no connection-level error in the log; non-trivial = >=1 victim ended while its peer was still sending (peer observed the closed status); distinct by script hash")
 	ev.Check(t, c06, func(rt *rapid.T) {
 		cfg := drawConfig(rt)
+		// small windows: many victims share the connection (the stream-density variant below covers large windows)
 		if cfg.Window == 0 || cfg.Window > 1000 {
 			cfg.Window = []int{64, 1000, 4096}[rapid.IntRange(0, 2).Draw(rt, "victimwindow")]
 		}
@@ -349,7 +351,7 @@ func TestC06_StaleFrames(t *testing.T) {
 			echo := func(id netfx.ID, what string) bool {
 				peer.WriteMsg(netfx.OpenMsg(id, 1<<20, []byte("hello-"+what)))
 				for {
-					f, err := peer.ReadFrame(boundArrive)
+					f, err := peer.ReadFrame(boundArrive())
 					if err != nil {
 						ev.Violation(rt, c06, "stale:connection-lost", kase, "%s: connection lost or no reply: %v; log: %v", what, err, log.Records())
 						return false
@@ -387,7 +389,7 @@ func TestC06_StaleFrames(t *testing.T) {
 			var peer *netfx.RawPeer
 			select {
 			case peer = <-rs.peers:
-			case <-time.After(boundArrive):
+			case <-time.After(boundArrive()):
 				rt.Fatalf("infrastructure: no raw peer")
 			}
 			defer peer.Close()
@@ -396,7 +398,7 @@ func TestC06_StaleFrames(t *testing.T) {
 				rt.Fatalf("infrastructure: %v", st)
 			}
 			ch.Send(ctxNone(), []byte("x"))
-			f, ok := rs.next(boundArrive)
+			f, ok := rs.next(boundArrive())
 			if !ok || f.Code != netfx.CodeOpen {
 				ev.Violation(rt, c06, "stale:no-open", kase, "client did not send an open frame")
 				return
@@ -404,7 +406,7 @@ func TestC06_StaleFrames(t *testing.T) {
 			ch.Free()
 			// wait for the close frame so that the channel has really ended
 			for {
-				g, ok := rs.next(boundArrive)
+				g, ok := rs.next(boundArrive())
 				if !ok {
 					ev.Violation(rt, c06, "stale:no-close", kase, "client did not send a close frame after Free")
 					return
@@ -425,7 +427,7 @@ func TestC06_StaleFrames(t *testing.T) {
 				ev.Violation(rt, c06, "stale:connection-lost", kase, "Send after stale frames: %v", st)
 				return
 			}
-			g, ok := rs.next(boundArrive)
+			g, ok := rs.next(boundArrive())
 			if !ok || g.Code != netfx.CodeOpen || string(g.Data) != "ping" {
 				ev.Violation(rt, c06, "stale:connection-lost", kase, "ping open frame did not arrive after stale frames (ok=%v code=%d); log: %v", ok, g.Code, log.Records())
 				return
@@ -447,5 +449,138 @@ func TestC06_StaleFrames(t *testing.T) {
 			ev.Violation(rt, c06, "stale:connection-error", kase, "connection-level error after stale frames: %v", ce[0])
 		}
 		ev.Case(c06, ev.Hash("stale", fmt.Sprint(script), batch, serverSide), true, fmt.Sprintf("stale:serverside=%v", serverSide))
+	})
+}
+
+// TestC06_EndUnderStream concentrates the schedule on the narrow end-of-channel windows: few
+// channels per connection, so that nearly every frame the receive loop handles belongs to the
+// channel that is being ended, with the other side streaming small frames through a large
+// window for the whole end sequence (user Free -> close frame queued -> send loop frees).
+func TestC06_EndUnderStream(t *testing.T) {
+	ev.Rule(c06, "rapid, stream-density variant: 1..4 connections in parallel, each running 20..80 victim channels one after another (end modes as in Isolation, ending side stops after 0..3 messages, streaming side sends 1..17-byte frames through a 1 MiB/default window), and a ping echo on the same connection after every few victims; oracle: every ping echoes, the connection stays open, no library panic, no connection-level error; non-trivial = >=1 victim ended while its peer was still sending")
+	ev.CheckScaled(t, c06, 1, 3, func(rt *rapid.T) {
+		cfg := drawConfig(rt)
+		cfg.Window = []int{1 << 20, 0}[rapid.IntRange(0, 1).Draw(rt, "streamwindow")]
+		cfg.Procs = []int{2, 4, 16}[rapid.IntRange(0, 2).Draw(rt, "procs2")]
+		// tiny socket buffers (one syscall per 16 bytes) behind a megabyte of queued frames only make the
+		// end sequence slow; they are exercised by Isolation
+		if cfg.ReadBuf != 0 && cfg.ReadBuf < 4096 {
+			cfg.ReadBuf = 4096
+		}
+		if cfg.WriteBuf != 0 && cfg.WriteBuf < 4096 {
+			cfg.WriteBuf = 4096
+		}
+		nconn := rapid.IntRange(1, 4).Draw(rt, "conns")
+		plans := make([][]*victim, nconn)
+		var hp []any
+		for c := range plans {
+			n := rapid.IntRange(20, 80).Draw(rt, "cycles")
+			for i := 0; i < n; i++ {
+				v := &victim{ID: chanSeq.Add(1), Kind: rapid.IntRange(0, 5).Draw(rt, "kind"), After: rapid.IntRange(1, 4).Draw(rt, "after"),
+					Size: []int{1, 16, 17}[rapid.IntRange(0, 2).Draw(rt, "vsize")], YieldN: rapid.IntRange(0, 2).Draw(rt, "vyield")}
+				plans[c] = append(plans[c], v)
+				hp = append(hp, v.Kind, v.After, v.Size)
+			}
+		}
+		kase := map[string]any{"config": cfg, "connections": nconn, "victims_per_connection": len(plans[0]), "first_victims": plans[0][:min(6, len(plans[0]))]}
+		var f failure
+		inflight := 0
+		t0 := time.Now()
+		defer func() {
+			if d := time.Since(t0); d > 2*time.Second {
+				ev.Label(c06, "stream:case-took>2s", 1)
+			}
+		}()
+		withProcs(cfg.Procs, func() {
+			log := netfx.NewLogger()
+			er := &errs{}
+			srv, err := netfx.StartServer(c06Handler(er), log, cfg.options())
+			if err != nil {
+				panic(fmt.Sprintf("infrastructure: %v", err))
+			}
+			defer srv.Stop()
+			var wg sync.WaitGroup
+			var fmu sync.Mutex
+			setf := func(k, m string) {
+				fmu.Lock()
+				if f.key == "" {
+					f = failure{k, m}
+				}
+				fmu.Unlock()
+			}
+			for c := range plans {
+				for _, v := range plans[c] {
+					c06victims.Store(v.ID, v)
+					defer c06victims.Delete(v.ID)
+				}
+				conn, st := mpx.Connect(ctxNone(), srv.Addr, log, cfg.options())
+				if !st.OK() {
+					setf("connect-failed", fmt.Sprintf("Connect: %v", st))
+					return
+				}
+				defer conn.Close()
+				wg.Add(1)
+				go func(c int, conn mpx.Conn) {
+					defer wg.Done()
+					for i, v := range plans[c] {
+						runVictimClient(conn, v, er)
+						if i%4 == 3 || i == len(plans[c])-1 {
+							ch, st := conn.Channel(ctxNone())
+							if !st.OK() {
+								setf("stream:connection-unusable", fmt.Sprintf("connection %d: Channel() after victim %d (kind %d): %v; connection errors: %v", c, i, v.Kind, st, log.ConnErrors()))
+								return
+							}
+							ping := netfx.Make(netfx.Header{Conn: roleVictim, Chan: 0xffffffff, Seq: uint32(i)}, 32)
+							if st := ch.Send(ctxNone(), ping); !st.OK() {
+								setf("stream:connection-unusable", fmt.Sprintf("connection %d: ping send after victim %d (kind %d): %v; connection errors: %v", c, i, v.Kind, st, log.ConnErrors()))
+								ch.Free()
+								return
+							}
+							m, st := ch.Receive(async.TimeoutContext(boundArrive()))
+							if !st.OK() || string(m) != string(ping) {
+								setf("stream:connection-unusable", fmt.Sprintf("connection %d: ping echo after victim %d (kind %d): %v (%d bytes); connection errors: %v", c, i, v.Kind, st, len(m), log.ConnErrors()))
+								ch.Free()
+								return
+							}
+							ch.Free()
+						}
+						if conn.Closed().IsSet() {
+							setf("stream:connection-closed", fmt.Sprintf("connection %d closed after victim %d (kind %d): %v", c, i, v.Kind, log.ConnErrors()))
+							return
+						}
+					}
+				}(c, conn)
+			}
+			if !waitGroupTimeout(&wg, hangTimeout()) {
+				setf("stream:hang", "case did not finish within "+hangTimeout().String()+":\n"+goroutineDump())
+				return
+			}
+			if f.key != "" {
+				return
+			}
+			if p := libraryPanicText(log); p != "" {
+				setf("library-panic", p)
+			} else if ce := log.ConnErrors(); len(ce) > 0 {
+				setf("connection-error", fmt.Sprintf("connection-level error logged: %v", ce[0]))
+			} else if e := er.first(); e != "" {
+				setf("witness-or-victim-error", e)
+			}
+		})
+		if f.key != "" {
+			kase["failure"] = f.msg
+			ev.Violation(rt, c06, f.key, kase, "%s", f.msg)
+		}
+		total := 0
+		for c := range plans {
+			for _, v := range plans[c] {
+				total++
+				if v.inflight.Load() {
+					inflight++
+				}
+			}
+		}
+		ev.Case(c06, ev.Hash(append(hp, "stream", fmt.Sprint(cfg))...), inflight > 0, fmt.Sprintf("stream:inflight-ends>0=%v", inflight > 0))
+		ev.Label(c06, "victims", int64(total))
+		ev.Label(c06, "victims-ended-with-traffic-in-flight", int64(inflight))
 	})
 }
